@@ -212,7 +212,18 @@ def grid_w(a, qu):
     return z3.ToReal(grid_k(a, qu)) * qu == a
 
 
-def grid_sum_facts(a1, a2, sign, qu):
+def grid_kept_facts(x, qu):
+    """ground instance of lemma grid/multiple-not-rounded for the actual
+    argument of the rounding function: a multiple of the quantum is rounded
+    to itself"""
+    g = grid_k(x, qu)
+    k = S.rnd(x / qu, S.DFLT_MODE)
+    return z3.Implies(z3.And(qu > 0, grid_w(x, qu)),
+                      z3.And(k == g, z3.ToReal(k) * qu == x,
+                             x / qu == z3.ToReal(g)))
+
+
+def grid_sum_facts(a1, a2, sign, qu, exact=None):
     """ground instances for the sum / difference of two multiples of qu:
     the definitional fact of the witness grid_k at (g1 +- g2) * qu, the
     distributivity instance, and the cancellation instance of lemma
@@ -220,14 +231,22 @@ def grid_sum_facts(a1, a2, sign, qu):
     g1, g2 = grid_k(a1, qu), grid_k(a2, qu)
     G = g1 + sign * g2
     gr = z3.ToReal(G)
-    exact = a1 + sign * a2
-    return z3.Implies(qu != 0, z3.And(
+    if exact is None:
+        exact = a1 + sign * a2
+    k = S.rnd(exact / qu, S.DFLT_MODE)
+    lemma = z3.Implies(
+        z3.And(qu > 0, grid_w(a1, qu), grid_w(a2, qu), exact == a1 + sign * a2),
+        # conclusions of lemma grid/sum-of-multiples-not-rounded for the
+        # actual argument of the rounding function
+        z3.And(k == G, z3.ToReal(k) * qu == exact, grid_k(exact, qu) == G,
+               gr * qu == exact))
+    return z3.And(lemma, z3.Implies(qu != 0, z3.And(
         S.rnd_int_fact(G, S.DFLT_MODE),
         grid_k(gr * qu, qu) == G,
         gr * qu == z3.ToReal(g1) * qu + sign * (z3.ToReal(g2) * qu),
         z3.Implies(z3.And(grid_w(a1, qu), grid_w(a2, qu)),
                    z3.And(exact / qu == gr, exact == gr * qu,
-                          grid_k(exact, qu) == G))))
+                          grid_k(exact, qu) == G)))))
 
 
 def on_grid(h, a, u):
